@@ -4,6 +4,7 @@ import (
 	"bytes"
 	"encoding/json"
 	"fmt"
+	"os"
 	"strconv"
 	"unicode/utf8"
 
@@ -85,7 +86,10 @@ var readfFuncs = []struct {
 }
 
 func c09Content(res *explore.Result, content string, pi int, verbose bool) {
-	pl := placements[pi]
+	pl := placementFromDisk
+	if pi >= 0 {
+		pl = placements[pi]
+	}
 	raw := []byte(content)
 	d := bytes.Replace(raw, []byte("\r\n"), []byte("\n"), -1) // the documented CRLF normalisation
 	_, f, r, base := place(pl, "f", raw)
@@ -314,6 +318,19 @@ func c09MaxLen(tier string) int {
 
 func c09Run(env *explore.Env) *explore.Result {
 	res := explore.NewResult()
+	// short contents also as a file loaded with text.ReadFile that is never added to a set
+	eachString(c09Symbols, 3, func(idx int64, s string, _ []int) {
+		if env.Mine(idx) {
+			c09Content(res, s, -1, false)
+			res.Add("traces", 1)
+		}
+	})
+	defer func() {
+		if diskScratch != "" {
+			os.Remove(diskScratch)
+			diskScratch = ""
+		}
+	}()
 	// every byte value directly after / before a word and a match: the edges of every character class the
 	// primitives use (word characters, whitespace, ASCII / multi-byte) are byte values, so all 256 are tried
 	for v := 0; v < 256; v++ {
@@ -362,7 +379,7 @@ func c09Replay(raw json.RawMessage) *explore.Result {
 		return res
 	}
 	s, err := strconv.Unquote(c.Content)
-	if err != nil || c.Placement < 0 || c.Placement >= len(placements) {
+	if err != nil || c.Placement < -1 || c.Placement >= len(placements) {
 		res.Notes = append(res.Notes, "bad case content")
 		return res
 	}
